@@ -11,6 +11,14 @@ class Unsupported(Exception):
     """construct outside the modelled subset -> the query is inconclusive, never 'holds'"""
 
 
+class BudgetExceeded(Unsupported):
+    """a loop of the crate ran past the engine's budget on this path; `pc` is the path condition at that point, so that a
+    check can ask the solver for an input on this path and see whether the native build terminates on it"""
+    def __init__(self, msg, pc=()):
+        Unsupported.__init__(self, msg)
+        self.pc = tuple(pc)
+
+
 class PanicExc(Exception):
     def __init__(self, msg, site=None):
         self.msg, self.site = msg, site
@@ -582,12 +590,18 @@ class Interp:
         work = [(st, 0)]
         done = []
         steps = 0
+        visits = {}
         while work:
             st, bb = work.pop()
             while True:
                 steps += 1
                 if steps > 3000000:
-                    raise Unsupported("step budget exceeded in " + fn.name)
+                    raise BudgetExceeded("step budget exceeded in " + fn.name, st.pc)
+                nv = visits.get(bb, 0) + 1
+                visits[bb] = nv
+                if nv > 4000:
+                    # one basic block entered 4000 times in one activation (inputs of the checks are at most ~1100 characters / 300 resources)
+                    raise BudgetExceeded("step budget exceeded in %s (block bb%s entered %d times in one activation)" % (fn.name, bb, nv), st.pc)
                 blk = fn.blocks[bb]
                 try:
                     for s in blk.stmts:
